@@ -1101,8 +1101,118 @@ struct IncGraph {
     edges: Vec<Vec<usize>>, // file i includes edges[i] (file indexes; usize::MAX = missing file)
 }
 
+/// A chain root -> c1 -> … -> cK -> x around the depth limit (the edge out of c48 is the first
+/// too-deep one), with a second, shorter route to x and something below x.
+/// `short_from`: the node (0 = root, j = c_j) that also includes x; `short_first`: whether that
+/// include comes before the node's chain include; `below`: 0 nothing, 1 x -> x, 2 x -> y -> x,
+/// 3 x -> y, 4 x -> y -> z -> y, 5 x -> c1 (back into the chain), 6 x -> y -> y
+fn deep_short_graph(k: usize, short_from: usize, short_first: bool, below: u64) -> IncGraph {
+    let x = k + 1;
+    let mut e: Vec<Vec<usize>> = vec![vec![]; k + 4];
+    for i in 0..k {
+        e[i].push(i + 1);
+    }
+    e[k].push(x);
+    let sf = short_from.min(k.saturating_sub(1));
+    if short_first {
+        e[sf].insert(0, x);
+    } else {
+        e[sf].push(x);
+    }
+    let (y, z) = (k + 2, k + 3);
+    match below {
+        1 => e[x].push(x),
+        2 => {
+            e[x].push(y);
+            e[y].push(x);
+        }
+        3 => e[x].push(y),
+        4 => {
+            e[x].push(y);
+            e[y].push(z);
+            e[z].push(y);
+        }
+        5 => e[x].push(1),
+        6 => {
+            e[x].push(y);
+            e[y].push(y);
+        }
+        _ => {}
+    }
+    IncGraph { n: k + 4, edges: e }
+}
+
+/// Include graphs that are always run first.
+fn fixed_graphs() -> Vec<(IncGraph, &'static str)> {
+    let mut v = Vec::new();
+    {
+        // the shared chain is reached by the short path first (56 files deep by the long one)
+        let (a, b) = (28usize, 27usize);
+        let n = 1 + a + b;
+        let shared = 1 + a;
+        let mut e = vec![vec![]; n];
+        e[0].push(shared);
+        e[0].push(1);
+        for i in 1..a {
+            e[i].push(i + 1);
+        }
+        e[a].push(shared);
+        for i in shared..n - 1 {
+            e[i].push(i + 1);
+        }
+        v.push((IncGraph { n, edges: e }, "twopaths"));
+    }
+    // a file first reached through a too-deep include, reached again by a shorter route, with a
+    // cycle below it (and the other visiting order, and the neighbouring chain lengths)
+    for (k, from, first, below) in [
+        (48, 0, false, 1), (48, 0, true, 1), (48, 0, false, 2), (48, 1, false, 1), (48, 0, false, 4),
+        (47, 0, false, 1), (49, 0, false, 1), (48, 0, false, 5), (48, 3, false, 6), (48, 0, false, 3),
+    ] {
+        v.push((deep_short_graph(k, from, first, below), "deepshort"));
+    }
+    v
+}
+
+/// The include graphs of a run: the fixed ones, then `count` generated ones (own PRNG stream, so
+/// that the list can be regenerated by the parent and by a restarted worker).
+fn include_graphs(seed: u64, count: usize) -> Vec<(IncGraph, &'static str)> {
+    let mut v = fixed_graphs();
+    let mut rng = Rng::new(seed.wrapping_mul(1000).wrapping_add(777));
+    for _ in 0..count {
+        v.push(gen_graph(&mut rng));
+    }
+    v
+}
+
+fn graph_files(g: &IncGraph) -> BTreeMap<String, String> {
+    let mut files = BTreeMap::new();
+    for i in 0..g.n {
+        let mut s = format!("#{}\n", i);
+        for &c in &g.edges[i] {
+            if c == usize::MAX {
+                s.push_str("include(nofile);\n");
+            } else {
+                s.push_str(&format!("include(f{});\n", c));
+            }
+        }
+        files.insert(format!("f{}", i), s);
+    }
+    files
+}
+
 fn gen_graph(rng: &mut Rng) -> (IncGraph, &'static str) {
-    match rng.below(12) {
+    match rng.below(16) {
+        12..=15 => {
+            let k = match rng.below(8) {
+                0 => 46,
+                1 => 47,
+                2 => 49,
+                3 => 50,
+                _ => 48,
+            };
+            let from = if rng.chance(2, 3) { 0 } else { rng.range(1, 4) as usize };
+            (deep_short_graph(k, from, rng.chance(1, 3), rng.below(7)), "deepshort")
+        }
         0 => {
             // self include
             (IncGraph { n: 1, edges: vec![vec![0]] }, "self")
@@ -1198,18 +1308,7 @@ fn gen_graph(rng: &mut Rng) -> (IncGraph, &'static str) {
 }
 
 fn include_case(id: &mut usize, g: &IncGraph, kind: &str, stats: &mut BTreeMap<String, usize>) {
-    let mut files = BTreeMap::new();
-    for i in 0..g.n {
-        let mut s = format!("#{}\n", i);
-        for &c in &g.edges[i] {
-            if c == usize::MAX {
-                s.push_str("include(nofile);\n");
-            } else {
-                s.push_str(&format!("include(f{});\n", c));
-            }
-        }
-        files.insert(format!("f{}", i), s);
-    }
+    let files = graph_files(g);
     // reachable subgraph from the root: does it have a cycle / how deep is it
     let mut color = vec![0u8; g.n];
     let mut cyclic = false;
@@ -1455,6 +1554,87 @@ fn orchestrate_parse_stream(seed: u64, n_parse: usize) -> serde_json::Value {
     json!({"totals": total, "by_kind": by_kind, "workers_reporting": workers_reporting, "workers": nchunks + HANG_PROBES.len(), "hang_pattern_skipped": hang_seen})
 }
 
+/// Stream I worker: graphs `from..` of the run's list, announcing each before it is parsed.
+fn worker_include(seed: u64, count: usize, from: usize) {
+    install_hooks();
+    *HANG_KEY.lock().unwrap() = "include-resolution-hang".to_string();
+    let graphs = include_graphs(seed, count);
+    let mut stats: BTreeMap<String, usize> = BTreeMap::new();
+    for (idx, (g, kind)) in graphs.iter().enumerate().skip(from) {
+        emit(json!({"type": "iprogress", "idx": idx}));
+        let mut id = 1_000_000 + idx;
+        include_case(&mut id, g, kind, &mut stats);
+    }
+    emit(json!({"type": "istat", "stats": stats}));
+}
+
+/// Run stream I in child processes; a child that dies (stack overflow, abort) is reported with the
+/// graph it was working on and the stream continues after that graph.
+fn orchestrate_include_stream(seed: u64, count: usize, stats: &mut BTreeMap<String, usize>) {
+    let exe = std::env::current_exe().expect("current_exe");
+    let graphs = include_graphs(seed, count);
+    let mut from = 0usize;
+    let mut restarts = 0usize;
+    while from < graphs.len() && restarts <= 25 {
+        let out = std::process::Command::new(&exe)
+            .args(["--worker-include", "--seed", &seed.to_string(), "--n", &count.to_string(), "--from", &from.to_string()])
+            .stdin(std::process::Stdio::null())
+            .output();
+        let out = match out {
+            Ok(o) => o,
+            Err(e) => {
+                emit_violation("harness-worker-failed", format!("include worker failed to start: {e}"), json!({}));
+                return;
+            }
+        };
+        let stdout = String::from_utf8_lossy(&out.stdout).to_string();
+        let stderr = String::from_utf8_lossy(&out.stderr).to_string();
+        let mut last: Option<usize> = None;
+        let mut finished = false;
+        for line in stdout.lines() {
+            if !line.starts_with('{') {
+                continue;
+            }
+            match serde_json::from_str::<serde_json::Value>(line) {
+                Ok(v) if v["type"] == "iprogress" => last = v["idx"].as_u64().map(|x| x as usize),
+                Ok(v) if v["type"] == "istat" => {
+                    finished = true;
+                    if let Some(m) = v["stats"].as_object() {
+                        for (k, n) in m {
+                            *stats.entry(k.clone()).or_default() += n.as_u64().unwrap_or(0) as usize;
+                        }
+                    }
+                }
+                Ok(_) => println!("{line}"),
+                Err(_) => {}
+            }
+        }
+        if finished {
+            break;
+        }
+        // the worker stopped inside graph `last`
+        let idx = last.unwrap_or(from);
+        if !out.status.success() {
+            let (g, kind) = &graphs[idx.min(graphs.len() - 1)];
+            let overflow = stderr.contains("overflowed its stack");
+            let key = if overflow { "include-assembly-stack-overflow" } else { "include-resolution-abort" };
+            let what = if overflow {
+                "resolving the includes overflowed the stack (the process aborted): tree assembly recursed without end, i.e. a cyclic include statement was not reported and skipped"
+            } else {
+                "the process resolving the includes died"
+            };
+            emit_violation(
+                key,
+                format!("{what}; {} status {:?}; include graph ({kind}): {}", stderr.lines().rev().find(|l| !l.trim().is_empty()).unwrap_or(""), out.status, trunc(&format!("{:?}", g.edges.iter().enumerate().filter(|(_, e)| !e.is_empty()).collect::<Vec<_>>()), 400)),
+                json!({"files": graph_files(g), "root": "f0", "edges": g.edges.iter().map(|e| e.iter().map(|c| if *c == usize::MAX { -1 } else { *c as i64 }).collect::<Vec<_>>()).collect::<Vec<_>>(), "kind": kind}),
+            );
+            *stats.entry("include_worker_died".into()).or_default() += 1;
+        }
+        from = idx + 1;
+        restarts += 1;
+    }
+}
+
 /// Fixed regression inputs (always run first).
 const FIXED: &[&str] = &[
     "",
@@ -1558,6 +1738,10 @@ fn main() {
             });
             println!("  result: {}", if r.is_ok() { "ok" } else { "PANIC" });
         }
+        return;
+    }
+    if args.iter().any(|a| a == "--worker-include") {
+        worker_include(seed, n, arg_val(args, "--from", 0) as usize);
         return;
     }
     if args.iter().any(|a| a == "--worker-parse") {
@@ -1664,28 +1848,8 @@ fn main() {
         drive_case(&mut id, "drive", &text, &ops, use_map, &mut stats);
     }
 
-    // ---- stream I -----------------------------------------------------------
-    {
-        // fixed: the shared chain is reached by the short path first (56 files deep by the long one)
-        let (a, b) = (28usize, 27usize);
-        let n = 1 + a + b;
-        let shared = 1 + a;
-        let mut e = vec![vec![]; n];
-        e[0].push(shared);
-        e[0].push(1);
-        for i in 1..a {
-            e[i].push(i + 1);
-        }
-        e[a].push(shared);
-        for i in shared..n - 1 {
-            e[i].push(i + 1);
-        }
-        include_case(&mut id, &IncGraph { n, edges: e }, "twopaths", &mut stats);
-    }
-    for _ in 0..(n / 3).max(30) {
-        let (g, kind) = gen_graph(&mut rng);
-        include_case(&mut id, &g, kind, &mut stats);
-    }
+    // ---- stream I: in a child process (a stack overflow in tree assembly aborts the process)
+    orchestrate_include_stream(seed, (n / 3).max(30), &mut stats);
 
     emit_stat(json!({
         "extra_evaluations": pst["totals"]["parses"].as_u64().unwrap_or(0),
